@@ -27,7 +27,7 @@ ASSUMPTIONS = ['momentum and weight decay off so that updates expose the '
                'per-tick direction', 'comparisons are vacuous where the root '
                'application is numerically ill-conditioned (forward error '
                'bound above 1e-3 of the result)']
-EXPECTED_PROBES = ['scale_spread_ge_1e6', 'onehot_block', 'ragged_block',
+EXPECTED_PROBES = ['replicated_worlds', 'scale_spread_ge_1e6', 'onehot_block', 'ragged_block',
                    'two_blocked_axes', 'companion_checked', 'solo_block_checked',
                    'small_parameter_with_larger_companion']
 
@@ -80,10 +80,15 @@ def generate(seed, idx, tier):
                 'kind': wpick(rng, [('scaled', 6), ('onehot_block', 2),
                                     ('zero_blocks', 2)]),
                 'hot': rng.randrange(64)})
-  companions = [[rng.randrange(2, 9), rng.randrange(2, 9)]
+  # companions of rank 1..3 (a bias next to a matrix has another exponent)
+  companions = [[rng.randrange(2, 9) for _ in range(pick(rng, [1, 2, 2, 3]))]
                 for _ in range(rng.randrange(1, 3))]
   if small:
     companions[0] = [b, rng.randrange(2, 9)]
+  if sysm == 'tearfree':
+    # (tearfree shampoo rejects tensors with more than two large dims)
+    companions = [(c + [rng.randrange(2, 9)])[:2] if len(c) != 2 else c
+                  for c in companions]
   return {'system': sysm, 'class': f"{sysm}_{'2ax' if two else '1ax'}",
           'x64': True, 'config': cfg, 'shape': [d0, d1], 'block': b,
           'spread': spread, 'scale_seed': rng.randrange(1 << 30),
@@ -91,7 +96,12 @@ def generate(seed, idx, tier):
           'companion_scale': 10.0 ** rng.randrange(-4, 5),
           'lr': {'kind': 'const', 'v': pick(rng, [1.0, 0.1])},
           'param_seed': rng.randrange(1000), 'ops': ops, 'ragged': ragged,
-          'two': two, 'small': small, 'solo_block': rng.randrange(64)}
+          'two': two, 'small': small, 'solo_block': rng.randrange(64),
+          # data-parallel replicas: parameters share the per-replica batches
+          'replicas': pick(rng, [2, 3]) if sysm == 'ds' and rng.random() < 0.3
+          else 1,
+          # position of the tensor among its companions in world C
+          'a_index': rng.randrange(0, 3)}
 
 
 def run(plan):
@@ -119,19 +129,26 @@ def run(plan):
   comp = [tuple(s) for s in plan['companions']]
   pa = dict(plan, tree=[[d0, d1]])
   pb = dict(plan, tree=[list(bs) for _, bs in grid])
-  pc = dict(plan, tree=[[d0, d1]] + [list(s) for s in comp])
+  ai = min(int(plan.get('a_index', 0)), len(comp))
+  pc = dict(plan, tree=[list(s) for s in comp[:ai]] + [[d0, d1]] +
+            [list(s) for s in comp[ai:]])
+  reps = int(plan.get('replicas', 1))
   for p_ in (pa, pb, pc):
-    p_['mode'] = 'jit'
+    p_['mode'] = 'vmap' if reps > 1 else 'jit'
+    p_['D'] = reps
+  if reps > 1:
+    ctx.probe('replicated_worlds')
   A, B, C = make_world(pa), make_world(pb), make_world(pc)
   solo = plan.get('solo_block', 0) % nblk
-  pb1 = dict(plan, tree=[list(grid[solo][1])], mode='jit')
+  pb1 = dict(plan, tree=[list(grid[solo][1])],
+             mode='vmap' if reps > 1 else 'jit', D=reps)
   B1 = make_world(pb1)
   prng = np.random.Generator(np.random.PCG64(int(plan['param_seed'])))
   theta = np.asarray(prng.standard_normal((d0, d1)) * 0.5, fdt)
   theta_c = [np.asarray(prng.standard_normal(s) * 0.5, fdt) for s in comp]
   par_a = [theta]
   par_b = [np.ascontiguousarray(theta[sl]) for sl, _ in grid]
-  par_c = [theta] + theta_c
+  par_c = theta_c[:ai] + [theta] + theta_c[ai:]
   sa, sb, sc = A.init(par_a), B.init(par_b), C.init(par_c)
   par_b1 = [par_b[solo]]
   sb1 = B1.init(par_b1)
@@ -161,12 +178,13 @@ def run(plan):
           for s in comp]
     ua, sa = A.update([g], sa, par_a)
     ub, sb = B.update([np.ascontiguousarray(g[sl]) for sl, _ in grid], sb, par_b)
-    uc, sc = C.update([g] + gc, sc, par_c)
+    uc, sc = C.update(gc[:ai] + [g] + gc[ai:], sc, par_c)
     ub1, sb1 = B1.update([np.ascontiguousarray(g[grid[solo][0]])], sb1, par_b1)
-    ub1 = np.asarray(B1.updates_np(ub1)[0], np.float64)
-    ua = np.asarray(A.updates_np(ua)[0], np.float64)
-    ub = [np.asarray(x, np.float64) for x in B.updates_np(ub)]
-    uc = np.asarray(C.updates_np(uc)[0], np.float64)
+    r0 = (lambda x: x[0]) if reps > 1 else (lambda x: x)
+    ub1 = np.asarray(r0(B1.updates_np(ub1)[0]), np.float64)
+    ua = np.asarray(r0(A.updates_np(ua)[0]), np.float64)
+    ub = [np.asarray(r0(x), np.float64) for x in B.updates_np(ub)]
+    uc = np.asarray(r0(C.updates_np(uc)[ai]), np.float64)
     u = 2.0 ** -53 if sysm == 'tearfree' else 2.0 ** -24
     # companion twin: A's update is unchanged by the other parameters
     ctx.probe('companion_checked')
